@@ -214,7 +214,9 @@ func (s *scenario) class() string {
 		return fmt.Sprintf("%s:raw:len%d:%s", s.Kind, s.Desc.Pos, s.Verdict)
 	case "sem":
 		return "rpack:" + s.Desc.Alt
-	case "trunc", "label", "flip":
+	case "trunc":
+		return fmt.Sprintf("%s:trunc-%s:%s:%s", s.Kind, s.Desc.Alt, s.Desc.Tag, s.Verdict)
+	case "label", "flip":
 		return fmt.Sprintf("%s:%s:%s:%s", s.Kind, s.Desc.Name, s.Desc.Tag, s.Verdict)
 	case "type":
 		return fmt.Sprintf("%s:type%d:%s", s.Kind, s.Desc.Pos, s.Verdict)
@@ -231,7 +233,9 @@ func (s *scenario) mutClass() string {
 		return s.Desc.Name
 	case "sem":
 		return "sem-" + s.Desc.Alt
-	case "trunc", "label", "flip":
+	case "trunc":
+		return "trunc-" + s.Desc.Alt + "-" + s.Desc.Tag // cut "at" the start of / "in" a segment of that tag
+	case "label", "flip":
 		return s.Desc.Name + "-" + s.Desc.Tag
 	case "type":
 		return fmt.Sprintf("type%d", s.Desc.Pos)
